@@ -1,5 +1,5 @@
 """C12 - an ArcUnion remembers which variant it holds and treats it as that type."""
-from .. import atomics, balance, cfg, core, symx
+from .. import inline, atomics, balance, cfg, core, symx
 from ..effects import vget
 from ..facts import operand_place
 
@@ -161,6 +161,10 @@ def _select(e, leaf, bits):
 
 
 def run(ctx, rep):
+    # "the count moves by one on the right allocation" - and by nothing on every other path, unwinding included, of the union's
+    # own operations and of what they are built from (the balance rules of C01/C04/C07)
+    balance.rule_bal(ctx, rep)
+    balance.rule_unw(ctx, rep)
     balance.rule_count_addr(ctx, rep)  # the union reaches the count only through typed handles, never as "the word before the payload"
     balance.rule_release_retarget(ctx, rep)  # release-then-store through `&mut Handle` must store on unwinding exits too
     for tag, F, E in ctx.each():
@@ -210,11 +214,28 @@ def _collect_calls(e, out):
 
 
 def _variant_arms(F, B, b):
-    """Find `switch(discriminant(borrow()))`: returns {variant name: exclusive block set}."""
+    """Find `switch(discriminant(borrow()))` - or a branch on the union's own `is_first()` / `is_second()` (judged by R-TAG) -:
+    returns {variant name: exclusive block set}."""
     for bi, bl in enumerate(b["blocks"]):
         tt = bl["term"]
         if tt["k"] != "switch":
             continue
+        c = B.condition(tt["discr"])
+        if c and "call" in c:
+            cb = F.body(atomics.callee_of(c["call"]) or "")
+            if cb is not None and cb.get("name") in ("is_first", "is_second") and F.handle_name((cb.get("impl") or {}).get("self_ty", -1)) == "ArcUnion" and c["call"]["args"]:
+                a0 = operand_place(c["call"]["args"][0])
+                from . import c03
+
+                if a0 is not None and 1 in c03.root_args(B, a0["l"]):
+                    arms = {}
+                    for tgt, tv in B.switch_truth(tt).items():
+                        holds = tv != c["neg"]
+                        first = holds if cb["name"] == "is_first" else not holds
+                        arms["First" if first else "Second"] = tgt
+                    if len(arms) == 2:
+                        r = {k: B.reach(t, normal_only=True) for k, t in arms.items()}
+                        return {"First": r["First"] - r["Second"], "Second": r["Second"] - r["First"]}
         l = operand_place(tt["discr"])
         if l is None:
             continue
@@ -265,14 +286,23 @@ def _released_types(F, b, blocks, gmap, depth):
 
 def _arms(F, A, rep, tag, gen):
     spec = {
-        ("ArcUnion", "clone", "Clone"): {"First": [("clone_arc", gen[0]), ("from_first", None)], "Second": [("clone_arc", gen[1]), ("from_second", None)]},
+        ("ArcUnion", "clone", "Clone"): {"First": [(("clone_arc", "clone"), gen[0]), ("from_first", None)], "Second": [(("clone_arc", "clone"), gen[1]), ("from_second", None)]},
         ("ArcUnion", "drop", "Drop"): {"First": [("from_raw", gen[0])], "Second": [("from_raw", gen[1])]},
     }
     for (h, m, tr), want in spec.items():
         for b in F.method(h, m, tr):
+            ik = b["key"]
             B = cfg.Body(b)
             excl = _variant_arms(F, B, b)
-            ik = b["key"]
+            if excl is None:
+                # the dispatch may sit in a private visitor (`self.with_arc(|a| .., |b| ..)`, `either(..)`): judge the body with
+                # private helpers and the closures handed to them inlined
+                fb = inline.inlined_full(F, b["key"])
+                if fb is not None and fb is not b:
+                    FB = cfg.Body(fb)
+                    e1 = _variant_arms(F, FB, fb)
+                    if e1 is not None:
+                        b, B, excl = fb, FB, e1
             if excl is None:
                 # the body may live in a private helper taking `self` (`unsafe fn release(&mut self)` shared with other callers)
                 for _bi, t0 in B.calls():
@@ -307,7 +337,9 @@ def _arms(F, A, rep, tag, gen):
                         good, why = False, "the %s arm must rebuild (and so release) exactly one Arc<%s>; it rebuilds %s" % (variant, want_ty, rel or "nothing")
                     continue
                 for nm, ty in calls:
-                    hits = [g for g in got if g[0] == nm]
+                    names = nm if isinstance(nm, tuple) else (nm,)
+                    hits = [g for g in got if g[0] in names and (ty is None or g[1])]
+                    nm = "/".join(names)
                     if not hits:
                         good, why = False, "the %s arm does not call %s" % (variant, nm)
                     elif ty is not None and not any(g[1] and g[1][0] == ty for g in hits):
@@ -325,6 +357,13 @@ def _arms(F, A, rep, tag, gen):
             B = cfg.Body(b)
             excl = _variant_arms(F, B, b)
             if excl is None:
+                fb = inline.inlined_full(F, b["key"])  # `self.either(Some, |_| None)`
+                if fb is not None and fb is not b:
+                    FB = cfg.Body(fb)
+                    e1 = _variant_arms(F, FB, fb)
+                    if e1 is not None:
+                        b, B, excl = fb, FB, e1
+            if excl is None:
                 rep.bad("R-ARMS", b["key"], "no `match` on the variant of the borrow found", F.loc(b), tag)
                 continue
             good = True
@@ -334,6 +373,11 @@ def _arms(F, A, rep, tag, gen):
                     for s in b["blocks"][bi]["stmts"]:
                         if s["k"] == "assign" and s["rv"]["k"] == "agg" and s["rv"].get("adt") == "core::option::Option":
                             vs.add(s["rv"]["variant"])
+                    tt = b["blocks"][bi]["term"]
+                    if tt["k"] == "call" and tt.get("callee_trait") in inline.FN_TRAITS and isinstance(tt.get("callee_self"), int):
+                        ft = F.ty(tt["callee_self"])
+                        if ft["k"] == "fndef" and "::Option::Some" in str(ft.get("def", "")):
+                            vs.add("Some")  # the variant constructor used as a function (`either(Some, ..)`)
                 if vs != ({"Some"} if variant == keep else {"None"}):
                     good = False
             if good:
@@ -342,6 +386,8 @@ def _arms(F, A, rep, tag, gen):
                 rep.bad("R-ARMS", b["key"], "%s must answer Some exactly for the %s variant" % (name, keep), F.loc(b), tag)
     # PartialEq: every constant answer is `false`, comparisons are same-variant
     for b in F.method("ArcUnion", "eq", "PartialEq"):
+        eq_key = b["key"]
+        b = inline.inlined_full(F, b["key"]) or b  # a visitor over the variant with closures per arm is judged as straight code
         B = cfg.Body(b)
         consts = []
         for bl in b["blocks"]:
@@ -371,8 +417,16 @@ def _arms(F, A, rep, tag, gen):
                     consts.append(v)
         # comparisons written inside closures of this function: both sides must be borrows of the same payload type
         tcmps = []
+        def owned_by_eq(cb):
+            o, n = cb.get("owner"), 0
+            while o and n < 6:
+                if o == eq_key:
+                    return True
+                o, n = (F.body(o) or {}).get("owner"), n + 1
+            return False
+
         for cb in F.body_list:
-            if cb["kind"] == "Closure" and cb.get("owner") == b["key"]:
+            if cb["kind"] == "Closure" and owned_by_eq(cb):
                 for _bi, t in cfg.Body(cb).calls():
                     if t.get("callee_trait") == "core::cmp::PartialEq" and len(t.get("arg_tys", [])) == 2:
                         x, y = (F.ts(F.strip_refs(i)) for i in t["arg_tys"])
